@@ -512,8 +512,28 @@ Proof.
   apply Acct_ext; reflexivity.
 Qed.
 
+(** Loader.restore_placement of one instance: a placement step of the cycle's alphabet, then the identity *)
+Lemma restore_put_ps c sn an vb ex : psteps c (fst (restore_put c sn an vb ex)).
+Proof.
+  unfold restore_put. destruct vb; [apply srv_restore_ps|].
+  destruct (get_app an (c_apps c)) as [a|]; [|apply ps_refl]. destruct (a_once a); [apply ps_refl|].
+  destruct (srv_put c sn an) as [c'|] eqn:E; [|apply ps_refl]. cbn [fst]. eapply srv_put_ps; exact E.
+Qed.
+Lemma Acct_force_identity c an i : Acct c -> Acct (force_identity c an i).
+Proof.
+  unfold force_identity. destruct i as [i|]; [|tauto]. destruct (get_app an (c_apps c)) as [a|]; [|tauto].
+  destruct (group_of c a) as [[g grp]|]; [|tauto].
+  intros H. apply Acct_upd_app_eq3; [intros x; repeat split|].
+  revert H. apply Acct_eq3; [reflexivity|reflexivity|apply Forall2_eq3_refl].
+Qed.
+
 Definition wf_op (c : cell) (o : op) : Prop :=
   match o with
+  | ORestore sname aname verbatim expires ident =>
+      (* the call sites of Loader.restore_placement: the server exists and the instance, when it exists, is on no
+         server (the server's own instances were just taken off it) *)
+      get_srv sname (c_servers c) <> None /\
+      (forall a, get_app aname (c_apps c) = Some a -> a_server a = None)
   | OAddServer name parent cap label traits vu =>
       get_srv name (c_servers c) = None /\ length cap = c_dim c /\ nonneg cap /\
       (forall m a, get_app m (c_apps c) = Some a -> a_server a <> Some name)
@@ -640,6 +660,11 @@ Proof.
     destruct (existsb _ _); revert HA; apply Acct_ext; reflexivity.
   - revert HA; apply Acct_ext; reflexivity.
   - pose proof (Acct_schedule c choices HA) as H. destruct (schedule c choices) as [[c' qs] pl]. exact H.
+  - (* ORestore *)
+    unfold restore_op. destruct (get_app aname (c_apps c)) as [a|]; [|exact HA].
+    pose proof (Acct_psteps _ _ (restore_put_ps c sname aname verbatim expires) HA) as H1.
+    destruct (restore_put c sname aname verbatim expires) as [c1 ok]. cbn [fst] in H1.
+    destruct ok; [apply Acct_force_identity; exact H1|]. destruct (a_once a); [apply Acct_remove_app|]; exact H1.
 Qed.
 
 Fixpoint wf_ops (c : cell) (ops : list op) : Prop :=
@@ -659,6 +684,12 @@ Qed.
 (** boolean well-formedness of events, for concrete histories *)
 Definition wf_opb (c : cell) (o : op) : bool :=
   match o with
+  | ORestore sname aname verbatim expires ident =>
+      (match get_srv sname (c_servers c) with Some _ => true | None => false end)
+      && (match get_app aname (c_apps c) with
+          | Some a => match a_server a with None => true | Some _ => false end
+          | None => true
+          end)
   | OAddServer name parent cap label traits vu =>
       (match get_srv name (c_servers c) with None => true | Some _ => false end)
       && Nat.eqb (length cap) (c_dim c) && forallb (Z.leb 0) cap
@@ -688,6 +719,9 @@ Proof.
     rewrite Hsv in *. cbn in *. rewrite Z.eqb_refl in *. discriminate.
   - intros H Hn. rewrite Hn in H. repeat (apply andb_true_iff in H as [H ?]).
     destruct (a_server a); [discriminate|]. split; [reflexivity|]. split; [apply Nat.eqb_eq; assumption|apply forallb_nonneg; assumption].
+  - intros H. apply andb_true_iff in H as [H1 H2]. split.
+    + destruct (get_srv sname (c_servers c)); [discriminate|discriminate].
+    + intros a Ha. rewrite Ha in H2. destruct (a_server a); [discriminate|reflexivity].
 Qed.
 Lemma wf_opsb_sound ops : forall c, wf_opsb c ops = true -> wf_ops c ops.
 Proof.
